@@ -90,6 +90,15 @@ func (r *fragReader) Seek(off int64, whence int) (int64, error) {
 
 var errInjected = errors.New("verif: injected I/O failure")
 
+// tempErr is an injected failure of the kind network connections report (net.Error style).
+type tempErr struct{}
+
+func (tempErr) Error() string   { return "verif: injected temporary I/O failure (i/o timeout)" }
+func (tempErr) Temporary() bool { return true }
+func (tempErr) Timeout() bool   { return true }
+
+var errInjectedTemp error = tempErr{}
+
 type sinkWrite struct {
 	off, n int
 	api    string
@@ -104,6 +113,39 @@ type faultSink struct {
 	log      []sinkWrite
 	faultAPI []string    // API calls during which an injected failure was returned
 	inner    func(k int) // optional hook run inside every write (C13 engine b)
+	temp     bool        // failures are reported with a Temporary()/Timeout() error
+}
+
+func (s *faultSink) injected() error {
+	if s.temp {
+		return errInjectedTemp
+	}
+	return errInjected
+}
+
+// fileSink is a faultSink that also looks like a file: it can Seek and Truncate (what *os.File offers).
+type fileSink struct {
+	*faultSink
+	pos int64
+}
+
+func (f *fileSink) Seek(off int64, whence int) (int64, error) {
+	switch whence {
+	case io.SeekStart:
+		f.pos = off
+	case io.SeekCurrent:
+		f.pos = int64(len(f.buf)) + off
+	case io.SeekEnd:
+		f.pos = int64(len(f.buf)) + off
+	}
+	return f.pos, nil
+}
+
+func (f *fileSink) Truncate(n int64) error {
+	if n >= 0 && n <= int64(len(f.buf)) {
+		f.buf = f.buf[:n]
+	}
+	return nil
 }
 
 func (s *faultSink) Write(p []byte) (int, error) {
@@ -117,9 +159,9 @@ func (s *faultSink) Write(p []byte) (int, error) {
 		if s.mode == "short" && len(p) > 1 {
 			n := len(p) / 2
 			s.buf = append(s.buf, p[:n]...)
-			return n, errInjected
+			return n, s.injected()
 		}
-		return 0, errInjected
+		return 0, s.injected()
 	}
 	s.log = append(s.log, sinkWrite{off: len(s.buf), n: len(p), api: s.api})
 	s.buf = append(s.buf, p...)
